@@ -332,3 +332,13 @@ func mustJSON(v any) []byte {
 	}
 	return b
 }
+
+// budgetFromEnv: soft exploration budget in minutes (VERIF_BUDGET_MIN overrides the default).
+func budgetFromEnv(defMin int) time.Duration {
+	if s := os.Getenv("VERIF_BUDGET_MIN"); s != "" {
+		if n, err := strconv.Atoi(s); err == nil && n > 0 {
+			return time.Duration(n) * time.Minute
+		}
+	}
+	return time.Duration(defMin) * time.Minute
+}
